@@ -204,7 +204,7 @@ Qed.
 Lemma sd_measure_mono : forall s l s' ev, Inv s -> s_sd s <> SdNone -> step s l = Some (s', ev) -> sd_measure s' <= sd_measure s.
 Proof.
   intros s l s' ev [I [U W]] Hne Hst. assert (Hsh : s_shut s = true) by now apply shut_true.
-  unfold sd_measure, sd_weight. destruct l as [c|c m|t|t|t|c|c|c| | | | ]; cbn [step] in Hst.
+  unfold sd_measure, sd_weight. destruct l as [c|c m|t|t|t|c|c|c| | | | |c m]; cbn [step] in Hst.
   - destruct (in_unreg s c); [discriminate|]. destruct (lmem c (s_cl s)); injection Hst as <- <-; sst; lia.
   - destruct (in_unreg s c); [discriminate|]. destruct (lmem c (s_cl s)); [|injection Hst as <- <-; lia].
     destruct (pool_send s c m) as [s1 r] eqn:Hs. injection Hst as <- <-.
@@ -241,6 +241,10 @@ Proof.
     destruct (shut_end s) as [s1 e1] eqn:He. injection Hst as <- <-.
     destruct (shut_end_fields s) as [_ [_ [_ [_ [_ [_ [_ [_ [_ [A10 [A11 _]]]]]]]]]]]. rewrite He in A10, A11. cbn [fst] in *.
     rewrite A10, A11. lia.
+  - destruct (in_unreg s c); [discriminate|]. destruct (lmem c (s_cl s)); [discriminate|].
+    destruct (s_sd s) eqn:Hsd; try discriminate.
+    destruct (pool_send s c m) as [s1 r] eqn:Hs. injection Hst as <- <-.
+    destruct (pool_send_shut s c m s1 r Hsh Hs) as [E1 [E2 [E3 E4]]]. rewrite E1, E2, E3, E4, Hsd. cbv iota beta. lia.
 Qed.
 
 (* ... and while Shutdown() is in progress some transition that lowers it is enabled: Shutdown()'s own next step, or
